@@ -238,7 +238,7 @@ func relevantFacts(facts []*Term, goal *Term) []*Term {
 		}
 		fs = append(fs, x)
 	}
-	thresholds := []float64{0.6, 0.45, 0.35}
+	thresholds := []float64{0.6, 0.5, 0.5}
 	for _, th := range thresholds {
 		add := map[string]bool{}
 		for _, x := range fs {
@@ -261,8 +261,11 @@ func relevantFacts(facts []*Term, goal *Term) []*Term {
 			topical := nt == 0 || nr > 0
 			if topical && (x.ground || float64(n)/float64(len(x.syms)) >= th) {
 				x.in = true
-				for s := range x.syms {
-					add[s] = true
+				if len(x.syms) <= 12 {
+					// large facts are kept but do not widen the relevant vocabulary (no snowballing)
+					for s := range x.syms {
+						add[s] = true
+					}
 				}
 			}
 		}
